@@ -6,6 +6,7 @@ import signal
 
 import gal
 import yaql
+import yaql.legacy
 from yaql.language import exceptions as yexc
 
 HEADER = "From YV Require Import Model.Queries Model.Streams."
@@ -49,6 +50,7 @@ def _convention(conv):
 
 
 NOFB = "!nofb"       # suffix of a convention name: the context is created with group_by_agg_fallback=False
+LEGACY = "!legacy"   # suffix of a convention name: yaql.legacy.create_context (and the legacy engine)
 DLG = "!dlg"         # suffix of a convention name: the context is created with delegates=True (lambda(..), $fn(..))
 
 
@@ -60,8 +62,23 @@ def context(conv="camel"):
     """the standard context under one of three naming conventions (the same functions, other spellings);
     `<conv>!nofb`: the same with groupBy's old-style aggregator fallback switched off"""
     if conv not in _ctxs:
-        c = yaql.create_context(convention=_convention(conv), group_by_agg_fallback=NOFB not in conv, delegates=DLG in conv)
+        mk = yaql.create_context
+        if LEGACY in conv:
+            mk = yaql.legacy.create_context
+        c = mk(convention=_convention(conv), group_by_agg_fallback=NOFB not in conv, delegates=DLG in conv)
         c.register_function(_tick, name="tick")
+        m = re.search(r"!dot(-?\d+)", conv)
+        if m:       # a child context in which the HOST overrides `.` for mappings: d.get(key, default)
+            from yaql.language import specs, utils as yutils, yaqltypes
+            default = int(m.group(1))
+
+            @specs.parameter('d', yutils.MappingType, alias='dict')
+            @specs.parameter('key', yaqltypes.Keyword())
+            @specs.name('#operator_.')
+            def host_access(d, key):
+                return d.get(key, default)
+            c = c.create_child_context()
+            c.register_function(host_access)
         _ctxs[conv] = c
     return _ctxs[conv]
 
@@ -377,6 +394,8 @@ def stage_apply_text(expr, sg, pr, alias=0):
                 "host": lambda: "$grp", "hostmap": lambda: "$grp.select(%s)" % lt(g[2], pr),
                 "hostfilter": lambda: "$grp.where(%s)" % lt(g[2], pr)}[g[0]]()
         return m("selectMany", pr.wrap(body))
+    if k == "attrx":               # collection.name under the context's member access
+        return "%s.%s" % (expr, sg[1])
     if k == "groupByG":            # the aggregator protocol: [key, value] pairs grouped on $[0], values $[1]
         return m("groupBy", "$[0]", "$[1]", GAGG_TEXT[sg[1]])
     if k == "groupByLegacy":       # the pre-1.1.1 aggregator: a function of [key, values] returning [key, aggregate]
@@ -557,6 +576,9 @@ def stage_gal(sg):
              "host": lambda: A("GHost", gal.z(g[1])), "hostmap": lambda: A("GHostMap", gal.z(g[1]), lam_gal(g[2])),
              "hostfilter": lambda: A("GHostFilter", gal.z(g[1]), lam_gal(g[2]))}[g[0]]()
         return A("SSelectManyG", t)
+    if k == "attrx":
+        acc = {"std": "AccStd", "legacy": "AccLegacy"}.get(sg[2][0]) or A("AccHost", gal.z(sg[2][1]))
+        return A("SProjectBy", gal.s(sg[1]), acc)
     if k == "groupByG":
         return A("SGroupByG", "(LIdx 0)", "(Some (LIdx 1))", GAGG_GAL[sg[1]], gal.boolean(sg[2]))
     if k == "groupByLegacy":
@@ -681,7 +703,7 @@ STAGE_NAMES = {
     "dictGet": ["get"], "containsKey": ["containsKey"], "containsValue": ["containsValue"],
     "union": ["union"], "intersect": ["intersect"], "difference": ["difference", "#operator_-"],
     "symmetricDifference": ["symmetricDifference"], "setAdd": ["add"], "setRemove": ["remove"],
-    "self": ["memorize"], "keysView": ["keys"], "groupByAgg": ["groupBy"], "groupByLegacy": ["groupBy"], "groupByG": ["groupBy"], "selectManyG": ["selectMany"], "attr": ["#operator_."], "unpackNamed": [], "unpackIdx": [], "with": [],
+    "self": ["memorize"], "keysView": ["keys"], "groupByAgg": ["groupBy"], "groupByLegacy": ["groupBy"], "groupByG": ["groupBy"], "selectManyG": ["selectMany"], "attrx": ["#operator_."], "attr": ["#operator_."], "unpackNamed": [], "unpackIdx": [], "with": [],
     "zipLongest": ["zipLongest"], "listOf": ["list"], "mergeWithX": ["mergeWith"], "dictSetMany": ["set"], "dictSetInline": ["set"],
     "assertAny": [], "flatten": ["flatten"], "defaultIfEmpty": ["defaultIfEmpty"], "times": ["#operator_*"], "isList": ["isList"],
     "isDict": ["isDict"], "isSet": ["isSet"], "isIterable": ["isIterable"], "in": ["#operator_in"],
@@ -926,7 +948,7 @@ def evaluate_fresh(text, mkdata, timeout=10, conv="camel"):
     """evaluate with freshly built data; a watchdog hit is only believed when it repeats (machine load).
     After a few confirmed hits (a tree on which evaluations hang) the patience is reduced so that the run ends."""
     ctx = context(conv)
-    eng = engine_opts(limit=2000, quota=(len(text) % 2 == 0))
+    eng = engine_opts(limit=2000, quota=(len(text) % 2 == 0), legacy=LEGACY in conv)
     if WATCHDOG_HITS[0] >= 2:
         return evaluate(text, mkdata(), 2, eng=eng, ctx=ctx)
     o = evaluate(text, mkdata(), timeout, eng=eng, ctx=ctx)
@@ -954,7 +976,10 @@ def engine_opts(**opts):
             o["yaql.convertInputData"] = False
         if opts.get("rawout"):
             o["yaql.convertOutputData"] = False
-        _engines_opt[key] = yaql.YaqlFactory(allow_delegates=bool(opts.get("delegates"))).create(options=o)
+        fac = yaql.YaqlFactory
+        if opts.get("legacy"):
+            fac = yaql.legacy.YaqlFactory
+        _engines_opt[key] = fac(allow_delegates=bool(opts.get("delegates"))).create(options=o)
     return _engines_opt[key]
 
 
@@ -1567,9 +1592,15 @@ def gen_pipeline(rng, maxlen=4):
 
 
 def fb_conv(stages, conv):
-    """the context a pipeline runs in: created with group_by_agg_fallback=False when a groupByG stage says so"""
+    """the context a pipeline runs in: created with group_by_agg_fallback=False when a groupByG stage says so; the legacy
+    context / a child context with a host overload of `.` when a collection.name stage says so"""
     if any(s[0] == "groupByG" and not s[2] for s in stages) and NOFB not in conv:
-        return conv + NOFB
+        conv += NOFB
+    for s in stages:
+        if s[0] == "attrx" and s[2][0] == "legacy" and LEGACY not in conv:
+            conv += LEGACY
+        if s[0] == "attrx" and s[2][0] == "host" and "!dot" not in conv:
+            conv += "!dot%d" % s[2][1]
     return conv
 
 
